@@ -108,8 +108,16 @@ func splitFrontMatter(raw []byte) (map[string]any, []byte) {
 		return nil, raw
 	}
 
-	parts := strings.SplitN(content, "---", 3)
-	if len(parts) < 3 {
+	// The block ends at the next line that begins with ---; a --- inside a
+	// line (title: A --- B) is part of the YAML.
+	parts := []string{"", "", ""}
+	if nl := strings.Index(content, "\n"); nl < 0 {
+		return nil, raw
+	} else if rest := content[nl+1:]; strings.HasPrefix(rest, "---") {
+		parts[1], parts[2] = content[3:nl+1], rest[3:]
+	} else if end := strings.Index(rest, "\n---"); end >= 0 {
+		parts[1], parts[2] = content[3:nl+1]+rest[:end+1], rest[end+4:]
+	} else {
 		return nil, raw
 	}
 
